@@ -263,15 +263,25 @@ static void cmp_zero(Type *ty) {
   case TY_FLOAT:
     println("  xorps %%xmm1, %%xmm1");
     println("  ucomiss %%xmm1, %%xmm0");
-    return;
+    break;
   case TY_DOUBLE:
     println("  xorpd %%xmm1, %%xmm1");
     println("  ucomisd %%xmm1, %%xmm0");
-    return;
+    break;
   case TY_LDOUBLE:
     println("  fldz");
     println("  fucomip");
     println("  fstp %%st(0)");
+    break;
+  }
+
+  if (is_flonum(ty)) {
+    // A NaN compares unordered (ZF=PF=1) but is not zero.
+    // Set ZF only if the operands are equal and ordered.
+    println("  sete %%al");
+    println("  setnp %%ah");
+    println("  and %%ah, %%al");
+    println("  xor $1, %%al");
     return;
   }
 
